@@ -37,6 +37,12 @@ for wt in sorted(glob.glob("/tmp/mut/C*")):
         k = re.search(r"mut(\d+)\.diff", diff).group(1)
         name = f"{pid}-m{k}"
         demo = f"{wt}/deliver/demo{k}.rs"
+        ported = f"/tmp/mut/ported/{name}.diff"
+        original = diff
+        if os.path.exists(ported):
+            # the sub-agent's patch was written against the pinned tree; the repaired tree moved the
+            # same lines, so the identical edit was re-applied by hand on the repaired HEAD
+            diff = ported
         r = {"property": pid, "patch": diff}
         results[name] = r
         if not os.path.exists(demo):
@@ -78,7 +84,9 @@ for wt in sorted(glob.glob("/tmp/mut/C*")):
             except OSError:
                 pass
             open(f"{d}/NOTES.md", "w").write(notes)
-            meta = {"id": name, "breaks_property": pid, "source": "independent sub-agent (saw only the property text and a scratch worktree)",
+            if diff != original:
+                shutil.copy(original, f"{d}/patch.original-against-pinned-tree.diff")
+            meta = {"id": name, "breaks_property": pid, "ported_to_repaired_head": diff != original, "source": "independent sub-agent (saw only the property text and a scratch worktree)",
                     "repo_head_confirmed_against": HEAD,
                     "confirmed": {"pinned_suite_passes_with_patch": True, "demo_cmd": cmd, "demo_fails_with_patch": True,
                                   "demo_passes_without_patch": True},
